@@ -70,7 +70,30 @@ def compensate_state_id_as_symbol_id():
     ta.PathFinder._propagate_from_state = patched
 
 
-COMPENSATIONS = {"state-id-taints-symbol-with-equal-id": compensate_state_id_as_symbol_id}
+def compensate_from_code_sink_unit():
+    """Compensation switch (classification only): get_sink_tag_by_rules sees only those sink_from_code.yaml rules whose
+    unit_path occurs in the path of the statement's unit (what find_sinks / apply_rules_from_code already demand)."""
+    import lian.taint.taint_analysis as ta
+    orig = ta.TaintRuleApplier.get_sink_tag_by_rules
+
+    def patched(self, node):
+        rm = self.rule_manager
+        saved = rm.all_sinks_from_code
+        try:
+            unit_id = self.loader.convert_stmt_id_to_unit_id(node.def_stmt_id)
+            up = self.loader.convert_module_id_to_module_info(unit_id).original_path
+            rm.all_sinks_from_code = [r for r in saved if r.unit_path and r.unit_path in up]
+        except Exception:
+            rm.all_sinks_from_code = saved
+        try:
+            return orig(self, node)
+        finally:
+            rm.all_sinks_from_code = saved
+    ta.TaintRuleApplier.get_sink_tag_by_rules = patched
+
+
+COMPENSATIONS = {"state-id-taints-symbol-with-equal-id": compensate_state_id_as_symbol_id,
+                 "from-code-sink-rule": compensate_from_code_sink_unit}
 
 
 def run_lian_case(case, ruleset, tag, compensate=()):
@@ -136,6 +159,12 @@ def run_lian_case(case, ruleset, tag, compensate=()):
     return out
 
 
+def cleanup(tag):
+    """Remove the job's project / settings / workspace (done in the child, so the parent's exit stays cheap)."""
+    import shutil
+    shutil.rmtree(os.path.join(common.scratch(), f"flow_{tag}"), ignore_errors=True)
+
+
 def analyse(item):
     """item: (tag, case, level).  Returns plain data: expected (dynamic) pairs, reported pairs, per-gadget verdicts."""
     from lib import gen_flow
@@ -155,6 +184,7 @@ def analyse(item):
            "source_hits": len(dyn.source_hits), "sink_hits": len(dyn.sink_hits), "gadget_of_pair": {}}
     for pr in expected:
         res["gadget_of_pair"][json.dumps(pr)] = snk_gadget.get((pr[2], pr[3]))
+    cleanup(tag)
     return res
 
 
@@ -532,17 +562,19 @@ def main():
                         "missed": v["missed"]})
     # attribution
     if missed:
-        cap = 600 if not thorough else 4000
+        cap = 1500 if not thorough else 12000
         done, runs, atom_sigs = run_attribution(missed, level_of, timeout, cap)
         chk.extra["mechanisms named in this run"] = atom_sigs
         chk.count("missed flows", len(missed))
+        if any(v is None for v in done.values()):
+            chk.note_inconclusive(f"attribution stopped at the cap of {cap} isolated re-runs; some missed flows have no mechanism signature")
         chk.count("isolated re-runs for mechanism attribution", runs)
         for mid, sigs in done.items():
             info = missed_info[mid]
             g = info["gadget"]
             if sigs is None:
                 chk.count("missed flows left unattributed (run cap)", 1)
-                sigs = [f"{g['sk']}->{g['tk']}:via:{chain_text(norm_gadget(g)['chain'])}:unattributed"]
+                continue
             for sig in sigs:
                 chk.fail(sig, f"flow {info['pair'][0]}:{info['pair'][1]} -> {info['pair'][2]}:{info['pair'][3]} observed in CPython "
                               f"({g['sk']} source, {g['tk']} sink, carriers {chain_text(norm_gadget(g)['chain'])}, place {g['place']}, "
